@@ -3,6 +3,9 @@
 KERNEL = "Lean 4.33.0 kernel (lake build re-checks every proof; thorough tier adds leanchecker)"
 AXIOMS = "axioms allowed in property theorems: propext, Classical.choice, Quot.sound only (audited on every run with #print axioms; no native_decide, bv_decide, sorry, admit or own axioms)"
 TIE = "the model is hand-written; it is tied to /repo by the sampled correspondence check (same op lines executed by the Go implementation in-process and by the native Lean driver, results diffed)"
+TRANSL = ("the frame codec (unescape, escape, CreateVerifyCode, Bcd2Dec, BodyProperty.decode/encode, Header.decode, JTMessage.Decode, Header.Encode) is TRANSLATED from /repo into Lean on every run "
+          "(extract golean -> JT/Gen/GoFrame.lean) and proved equal to the hand-written model (JT/Proof/GoFrame.lean); trusted there: JT/Go/Sem.lean (meaning of the Go operations), the translator, go/types, "
+          "int without 64-bit overflow, exact-capacity slicing, value semantics of slices (aliasing writes are refused by the translator)")
 HARNESS = "Go harness (generators, canonicalisation, oracle), Lean driver line protocol, Go toolchain"
 
 PROPS = {
@@ -15,14 +18,15 @@ PROPS = {
                  "x reply ID x platform serial (special values 0,1,7d,7e,7d7e,ffff) x body 0..1023 bytes (boundary lengths 0,1,999,1000,1001,1022,1023; "
                  "dense in 7e/7d/01/02; specials at both ends; last byte solved so that the checksum is 7e/7d/01/02); "
                  "`dec`: the produced frames. A case is counted once per distinct op line; non-trivial = source header decodes."),
-        "trusted_base": [KERNEL, AXIOMS, TIE, HARNESS,
-                         "modelled rather than verified: Go slices/append/bytes.Buffer as value lists; bytes.ContainsRune(0x7d) as byte membership; uint16 arithmetic of BodyProperty.encode as Nat arithmetic with explicit mod 65536"],
-        "technique": "Lean 4 proof (induction on the body) about a model of Header.Encode/JTMessage.Decode + differential correspondence check",
+        "trusted_base": [KERNEL, AXIOMS, TRANSL, TIE, HARNESS,
+                         "modelled rather than verified: Go slices/append/bytes.Buffer as value lists; bytes.ContainsRune(0x7d) as byte membership"],
+        "technique": "Lean 4 proof (induction on the body) about Header.Encode/JTMessage.Decode as translated from the Go source on every run (translated functions proved equal to the model) + differential correspondence check",
         "level_text": ("Machine-checked Lean 4 theorems, unbounded in body length and over all byte values: escape is inverted by unescape, "
                        "no 0x7e occurs strictly inside an encoded frame whatever body and checksum are, and decode(encode(h, id, serial, body)) returns exactly id, BCD phone, "
-                       "version, serial and body for every decodable header and every body of <= 1023 bytes. The model is tied to the Go code on every run by executing both on "
-                       "the same generated cases, and the round-trip oracle is evaluated on the implementation itself."),
-        "level_note": "Trusted: Lean kernel; hand-written model of protocol/jt808 (sampled tie, not a proof about Go); harness and generators. Axioms: propext, Classical.choice, Quot.sound.",
+                       "version, serial and body for every decodable header and every body of <= 1023 bytes. The same round trip is proved about the functions TRANSLATED from the Go source on every run "
+                       "(source_roundtrip: translated Decode o translated Encode, 0x7e only at the ends, nothing panics), through theorems that the translated functions equal the model. "
+                       "In addition the model is executed against the Go code on every run on the same generated cases, and the round-trip oracle is evaluated on the implementation itself."),
+        "level_note": "Trusted: Lean kernel; the Go->Lean translator and JT/Go/Sem.lean (the translated frame codec is proved equal to the model); harness and generators for what the value model cannot express (spare capacity, receiver and buffer history). Axioms: propext, Classical.choice, Quot.sound.",
         "assumptions": ["the Lean model JT/Model/Frame.lean mirrors protocol/jt808 (validated by the correspondence check on every run, not proved)",
                         "headers are those a decoder can produce (HeaderWF, proved to hold for every decoded message)"],
     },
@@ -37,13 +41,13 @@ PROPS["C02"] = {
              "`dec`: their truncations, extensions, single-bit and single-byte corruptions, wrong declared length with valid checksum, flipped fragment/version bit, bad escape pairs, short headers with valid checksum, wrong checksum; "
              "random strings (uniform and over the alphabet 7e,7d,01,02,00,30,ff); EXHAUSTIVELY every string of length <= 5 (quick) / <= 6 (thorough) over that alphabet; every single-byte corruption of a few short frames. "
              "distinct = distinct byte strings; non-trivial = every case (accept and reject are both informative here)."),
-    "technique": "Lean 4 proof that the decoder model accepts exactly the declaratively specified well-formed frames + differential correspondence (any divergence is a failing input)",
+    "technique": "Lean 4 proof that JTMessage.Decode as translated from the Go source on every run accepts exactly the declaratively specified well-formed frames (translated code = model = specification) + differential correspondence (any divergence is a failing input)",
     "level_text": ("Machine-checked Lean 4 theorem decode f = ok m <-> WellFormed f m for ALL byte strings, where WellFormed is a declarative specification written from the standard "
                    "(inductive escape relation with the one tolerated deviation, XOR = 0, header layout per version and fragment flag, body length = declared length), plus functionality and totality "
                    "(never panics; err exactly on non-well-formed input). Because model = specification is proved for every input, any input on which the Go decoder and the model differ is itself a violation; "
                    "the run compares them on generated, corrupted and exhaustively enumerated short strings."),
-    "level_note": "Trusted: Lean kernel; the specification JT/Spec/Frame.lean (my reading of JT/T 808); the sampled tie between model and Go code; harness. Axioms: propext, Classical.choice, Quot.sound.",
-    "trusted_base": [KERNEL, AXIOMS, TIE, HARNESS, "specification JT/Spec/Frame.lean: reading of the JT/T 808 frame layout",
+    "level_note": "Trusted: Lean kernel; the specification JT/Spec/Frame.lean (my reading of JT/T 808); the Go->Lean translator and JT/Go/Sem.lean (source_decode_iff_wellformed is about the translated JTMessage.Decode); harness. Axioms: propext, Classical.choice, Quot.sound.",
+    "trusted_base": [KERNEL, AXIOMS, TRANSL, TIE, HARNESS, "specification JT/Spec/Frame.lean: reading of the JT/T 808 frame layout",
                      "modelled rather than verified: Go slices as value lists; bytes.ContainsRune as byte membership"],
     "assumptions": ["the Lean model mirrors protocol/jt808 JTMessage.Decode (validated by the correspondence check, exhaustively on short strings over the special alphabet)",
                     "error identity is not compared (all errors are `err`)"],
@@ -212,7 +216,7 @@ PROPS["C09"] = {
     "shrink": False,
 }
 
-_CODEC_TB = [KERNEL, AXIOMS, TIE, HARNESS,
+_CODEC_TB = [KERNEL, AXIOMS, TRANSL, TIE, HARNESS,
              "extractor layouts (go/ast): (offset, width, struct field) tables of the Parse/Encode pairs of 12 fixed-layout types, regenerated into lean/JT/Gen/Layouts.lean on every run",
              "Go-side oracles written by the harness (harness/internal/props/codec_*.go): registry of 47 decoders, in-domain value generators, reflect-based structural comparison",
              "extractor paramtable (go/ast): per terminal-parameter ID the demanded length, the bytes of content read, the kind and the struct field, plus the declaration order of the struct fields, regenerated into lean/JT/Gen/ParamTable.lean on every run",
@@ -229,7 +233,7 @@ PROPS["C03"] = {
     "technique": "Lean 4 proof of bounds safety for the modelled decoders (explicit out-of-range outcome; tables regenerated by go/ast) + four-way differential execution of all decoders on the Go side",
     "level_text": ("Machine-checked Lean 4 theorems, for every byte string: 42 of the 47 registered decoders are modelled with every slice/index going through a checked accessor that yields `panic` where Go would, and none has a panic outcome: "
                    "the twelve fixed-layout Parse methods (field tables regenerated from the source, tiling obligation checked by the kernel; they accept exactly the bodies of the layout's length); the location decoder (0x0200, items of 0x0704, 0x0801) with all additional-information item decoders "
-                   "(admissible-length table regenerated from the source); the frame decoder (its checked-access version equals the total model: the length guards cover every access); the attachment control frames 0x1210/0x1211/0x1212 for five dialects; "
+                   "(admissible-length table regenerated from the source); the frame decoder (its checked-access version equals the total model: the length guards cover every access; and unescape, escape, CreateVerifyCode, Bcd2Dec and JTMessage.Decode as TRANSLATED from the Go source on every run are proved to return a value for every byte string — source_frame_functions_total); the attachment control frames 0x1210/0x1211/0x1212 for five dialects; "
                    "0x0002, 0x8104, 0x9003, 0x0102, 0x0100, 0x8100, 0x9101, 0x9201, 0x9206, 0x1205, 0x9205, 0x9202, 0x8801, 0x1005 and 0x9208 for every version/dialect; the vendor extensions 0x64, 0x65, 0x67, 0x70 (0x66, open finding F03, is proved to panic exactly on contents of 40 or 40+9n bytes). "
                    "terminal parameters (0x8103, 0x0104: the per-ID table of demanded length / bytes read is regenerated from parseParam's switch on every run, `param_table_safe` is checked by the kernel, and the walk never panics for any count byte and body). "
                    "PARTIAL: the location report with a plugged-in vendor extension has no Lean model of the composition; receiver state and memory behind a slice are not expressible in the value model. For ALL 47 decoders the Go side decides the property by differential execution on every run: "
